@@ -798,13 +798,31 @@ pub fn c11_differential(stream: &[u8], limit: Option<usize>, sched: &mut dyn FnM
 
 /// same; `handed` receives the descriptor numbers the scripted stream actually passed to the
 /// used connection (the schedule may attach real descriptors to its reads)
+thread_local! {
+    /// (read index, new payload limit): the owner reconfigures the used connection before that
+    /// read (one-shot plan, taken by the next differential run)
+    pub static C11_LIMIT_PLAN: std::cell::RefCell<Vec<(usize, usize)>> = std::cell::RefCell::new(Vec::new());
+}
+
 pub fn c11_differential_fds(stream: &[u8], limit: Option<usize>, sched: &mut dyn FnMut(usize, usize, usize) -> ReadEv, obs: &mut Obs, render: &mut String, handed: &mut Vec<RawFd>) -> Result<usize, Fail> {
+    let plan: Vec<(usize, usize)> = C11_LIMIT_PLAN.with(|p| std::mem::take(&mut *p.borrow_mut()));
     let mut u = ConnRun::new(stream.to_vec(), limit, true);
     let mut steps: Vec<UStep> = Vec::new();
     let mut window = buf_size();
     let mut guardn = 0;
+    // payload limit in effect before each read of the used connection
+    let mut cur_limit = limit;
+    let mut limit_before: Vec<Option<usize>> = Vec::new();
     while u.remaining() > 0 && guardn < 4 * stream.len() + 64 {
         guardn += 1;
+        for (at, l) in &plan {
+            if *at == steps.len() {
+                u.conn.set_payload_max_size(*l);
+                cur_limit = Some(*l);
+                obs.label("payload_limit_changed_during_the_connection");
+            }
+        }
+        limit_before.push(cur_limit);
         let ev = sched(u.consumed, stream.len(), window);
         let before = u.consumed;
         let st = match u.read(ev.clone()) {
@@ -839,8 +857,15 @@ pub fn c11_differential_fds(stream: &[u8], limit: Option<usize>, sched: &mut dyn
         for s in &steps[e + 1..=stop] {
             tail.extend_from_slice(&s.chunk);
         }
-        let mut f = ConnRun::new(tail, limit, true);
+        // "a newly created connection with the same configuration": the limit in effect then,
+        // reconfigured at the same points afterwards
+        let mut f = ConnRun::new(tail, limit_before[e + 1], true);
         for j in e + 1..=stop {
+            if j > e + 1 && limit_before[j] != limit_before[j - 1] {
+                if let Some(l) = limit_before[j] {
+                    f.conn.set_payload_max_size(l);
+                }
+            }
             let us = &steps[j];
             let ev = match us.ev_kind {
                 0 => ReadEv::Data { want: us.got.max(1), fds: vec![] },
@@ -877,7 +902,7 @@ pub fn c11_differential_fds(stream: &[u8], limit: Option<usize>, sched: &mut dyn
                         "after a parse error at read #{}, read #{} of the continuation (chunk \"{}\") behaves differently from a fresh connection:\n used : {:?} requests={:?} output=\"{}\"\n fresh: {:?} requests={:?} output=\"{}\"",
                         e, j - e, esc(&us.chunk), us.res, us.reqs.iter().map(|d| (d.method, &d.uri_dbg, d.cl)).collect::<Vec<_>>(), esc(&us.out),
                         fs.res, fs.reqs.iter().map(|d| (d.method, &d.uri_dbg, d.cl)).collect::<Vec<_>>(), esc(&fs.out)
-                    ),
+                    ) + &(if us.reqs != fs.reqs { format!("\n used requests in full : {:?}\n fresh requests in full: {:?}", us.reqs, fs.reqs) } else { String::new() }),
                 ));
             }
         }
@@ -999,8 +1024,22 @@ fn c11_ab(input: &Input, obs: &mut Obs) -> Result<(), Fail> {
     };
     let minwant = if stream.len() > 8192 { stream.len() / 256 } else { 1 };
     let mut render = String::new();
+    // optionally the owner changes the payload limit at some read (or two) of the connection's life
+    let mut limit_plan_active = false;
+    if s.chance(40) {
+        limit_plan_active = true;
+        let mut plan = Vec::new();
+        for _ in 0..s.range(1, 2) {
+            let at = s.below(12);
+            let l = [0usize, 1, 3, 5, 8, 40, 1024, 51200, u32::MAX as usize][s.below(9)];
+            plan.push((at, l));
+        }
+        C11_LIMIT_PLAN.with(|p| *p.borrow_mut() = plan);
+    }
     // optionally descriptors ride on reads of the rejected part: they must never reach a later request
-    let with_fds = s.chance(50);
+    // (not together with limit changes: those move the point where the input is rejected, and a
+    // descriptor arriving after that point rightly belongs to the continuation)
+    let with_fds = s.chance(50) && !limit_plan_active;
     let mut pipes: Vec<Pipe> = Vec::new();
     let mut handed: Vec<RawFd> = Vec::new();
     // only on reads that start before the fault is decidable: later reads belong to the continuation
@@ -1834,7 +1873,7 @@ pub fn c12() -> PropDef {
         id: "C12",
         subs: vec![("ss", c12_ss), ("socket", c12_socket), ("count", c12_count)],
         plan: c12_plan,
-        rule: "case = error-free pipelined stream x read schedule x assignment of 0..253 real descriptors (tagged pipe read ends) to reads incl. reads completing 0/1/several requests and the zero-byte read; oracle = pool model (descriptors arriving with a read join a pool; the first request completed by that or a later read receives the whole pool in arrival order), identity by tag read from the descriptor, no number owned twice, open while owned, and after dropping requests and connection every kept write end reports EPIPE and /proc/self/fd is back to its baseline; second harness: real socketpair with SCM_RIGHTS (conservation and order); non-trivial = >=2 descriptors and >=2 requests with a descriptor arriving on a read that completes no request or several",
+        rule: "case = error-free pipelined stream x read schedule x assignment of 0..253 real descriptors (tagged pipe read ends) to reads incl. reads completing 0/1/several requests and the zero-byte read; oracle = pool model (descriptors arriving with a read join a pool; the first request completed by that or a later read receives the whole pool in arrival order), identity by tag read from the descriptor, no number owned twice, open while owned, and after dropping requests and connection every kept write end reports EPIPE and /proc/self/fd is back to its baseline; second harness: real socketpair with SCM_RIGHTS (conservation and order); non-trivial = >=2 descriptors and >=2 requests with a descriptor arriving on a read that completes no request or several; between reads the owner pops all, none or one of the queued requests and may enqueue a response and attempt a write under accept-all/partial/EPIPE/EAGAIN/zero (completion points then come from the reference parser)",
         assumptions: vec!["one case at a time per worker process (descriptor numbers are a per-process resource)", "streams whose REF outcome is a parse error are excluded and counted (C11 judges them)"],
         single_threaded_world: true,
     }
